@@ -613,9 +613,9 @@ def replay(ctx, case):
 
 
 SUBS = [
-    Sub("fs_faults", run, replay, quick=140, thorough=10000, min_per_shard=4),
-    Sub("fs_large", run_large, replay, quick=42, thorough=2400,
+    Sub("fs_faults", run, replay, quick=140, thorough=6000, min_per_shard=4),
+    Sub("fs_large", run_large, replay, quick=42, thorough=1500,
         min_per_shard=2),
-    Sub("http_faults", run_http, replay, quick=40, thorough=3200,
+    Sub("http_faults", run_http, replay, quick=40, thorough=2000,
         min_per_shard=4),
 ]
